@@ -79,6 +79,20 @@ def run(tier: str, rep: Report):
         "'no line'); positional-only parameters only from 3.8",
     ]
     graphs = relax_models(rep, tier, wd)
+    # inconsistent position overrides (gaps, collisions): MC_Overrides
+    ocfg = wd / "MC_Overrides.cfg"
+    ocfg.write_text(f"SPECIFICATION Spec\nCONSTANTS\n  MaxInstr = 3\n  MaxOvr = {3 if tier == 'quick' else 4}\n  Emit = TRUE\nINVARIANT OverridesSafe\n")
+    ro = run_tlc("MC_Overrides", str(ocfg), workers=4, timeout=1800, extra=["-continue"])
+    ro.errors = [e for e in ro.errors if "behavior up to this point" not in e]
+    rep.add_tlc(ro, "MC_Overrides[<=3 LOAD_CONST of {1, True, 2}, overrides -1..3]")
+    rep.cov["model_invariant_violations_MC_Overrides"] = len(ro.violated)
+    ovr_cases = []
+    for n, s_ in enumerate(tlc_prints(ro.out)):
+        o = json.loads(tla_unescape(s_))
+        if o["prog"]:
+            ovr_cases.append({"id": f"o:{n}", "prog": o["prog"], "raises": o["raises"]})
+    if not ovr_cases:
+        rep.machinery_error(f"MC_Overrides emitted nothing: {ro.out[-300:]}")
     rnd = random.Random(seed() + 3)
     limit = 4000 if tier == "quick" else 40000
     pool = Pool(SUPPORTED, per_version=4)
@@ -101,6 +115,11 @@ def run(tier: str, rep: Report):
                 f = str(wd / f"graphs-{v}-{k}.ndjson")
                 files.append(f)
                 jobs[v].append(("encode.graphs_to_file", {"cases": [dict(g, id=g["id"] + ":" + v) for g in ch], "path": f}))
+            for ch in chunks(ovr_cases, 1000):
+                k += 1
+                f = str(wd / f"ovr-{v}-{k}.ndjson")
+                files.append(f)
+                jobs[v].append(("encode.overrides_to_file", {"cases": [dict(c, id=c["id"] + ":" + v) for c in ch], "path": f}))
             nfiles = 40 if tier == "quick" else 400
             fs = corpus.sample_files(v, nfiles, "encode") + corpus.repo_examples()
             for opt in ([0] if tier == "quick" else [0, 2]):
@@ -159,8 +178,8 @@ def run(tier: str, rep: Report):
     fails = df.validate(rep, files, "Trace_Encode")
 
     def keyfn(evid, clauses):
-        src = "graph" if evid.startswith("g:") else ("normalized" if evid.endswith(":norm") else "decoded")
-        return f"{PID}/{'+'.join(sorted(set(c.split('.', 1)[1] for c in clauses)))}/{src}/ver{df.ver_of(evid) if not evid.startswith('g:') else evid.split(':')[-1]}"
+        src = "graph" if evid.startswith("g:") else "overrides" if evid.startswith("o:") else ("normalized" if evid.endswith(":norm") else "decoded")
+        return f"{PID}/{'+'.join(sorted(set(c.split('.', 1)[1] for c in clauses)))}/{src}/ver{df.ver_of(evid) if evid[:2] not in ('g:', 'o:') else evid.split(':')[-1]}"
 
     df.classify(rep, fails, PREFIX, PID, keyfn)
     rep.cov["model_agreement"]["note"] = "M.* = real encoder vs Encode.tla (units, tables, line table, header, every relaxation pass)"
